@@ -156,6 +156,7 @@ type Injector struct {
 	File     string // default wire.go
 	Doc      string
 	RawSig   string // verbatim result list (C09)
+	After    string // raw declarations written after this injector in its file (copied to wire_gen.go by wire)
 }
 
 // Program is one case.
@@ -168,6 +169,8 @@ type Program struct {
 	ExtraSets  []*Set
 	Hist       int // history length for the fault enumerator (0/1: single failures only)
 	ExtraDecl  string // raw declarations appended to the root package's defs.go (scope pollution)
+	ExtraFiles       map[string]string // raw files added to the case as they are
+	InjectorImports  []*Pkg            // packages every injector file imports (so that Injector.After may refer to them by their user alias)
 	WireImport       int    // how user files import wire: 0 plain, 1 under the alias w, 2 dot import
 	UserImportPrefix string // user files import the case's own packages under this prefix + package name (so that package names may collide with the user's identifiers)
 	PairSets   bool   // declare consecutive named sets of a package pairwise: var A, B = wire.NewSet(..), wire.NewSet(..)
